@@ -96,6 +96,130 @@ func genRouteCompile() string {
 	sb.WriteString("def routeCompileCalls : List (String × String × String) := [\n  " + strings.Join(calls, ",\n  ") + "]\n")
 	sb.WriteString("\n/-- every `Terminal:` key in a caddyhttp.Route literal written by the Caddyfile adapter: (file:function, value) -/\n")
 	sb.WriteString("def adapterTerminalLiterals : List (String × String) := [\n  " + strings.Join(terminals, ",\n  ") + "]\n")
+	sb.WriteString(routeStateFacts(files))
 	sb.WriteString(footer)
+	return sb.String()
+}
+
+// routeStateFacts (property C05, round h): (1) every write of one of the request-context values
+// the routing reads — context.WithValue(_, K, _) with K among routeGroupCtxKey / VarsCtxKey /
+// ErrorCtxKey / OriginalRequestCtxKey, anywhere under modules/caddyhttp/** — as (file:function,
+// key, value expression); plus every other mention of routeGroupCtxKey inside a function body
+// (file:function, selector of the call it is an argument of, or "other"); (2) the statements of
+// the outer loop body of MatcherSets.FromInterface (the provisioning step that must append ONE
+// matcher set per loaded set, empty or not) and of the handler loop of Route.ProvisionHandlers.
+func routeStateFacts(files []string) string {
+	keys := map[string]bool{"routeGroupCtxKey": true, "VarsCtxKey": true, "ErrorCtxKey": true, "OriginalRequestCtxKey": true}
+	var writes, groupUses, fromIface, provHandlers, notProv []string
+	stmtText := func(st ast.Stmt) string {
+		switch v := st.(type) {
+		case *ast.DeclStmt:
+			return "decl"
+		case *ast.RangeStmt:
+			return "range " + exprText(v.X)
+		case *ast.AssignStmt:
+			l := make([]string, len(v.Lhs))
+			for i, e := range v.Lhs {
+				l[i] = exprText(e)
+			}
+			r := make([]string, len(v.Rhs))
+			for i, e := range v.Rhs {
+				r[i] = exprText(e)
+			}
+			return strings.Join(l, ",") + " " + v.Tok.String() + " " + strings.Join(r, ",")
+		case *ast.IfStmt:
+			return "if " + exprText(v.Cond)
+		case *ast.ReturnStmt:
+			return "return"
+		case *ast.BranchStmt:
+			return v.Tok.String()
+		case *ast.ExprStmt:
+			return exprText(v.X)
+		}
+		return "other"
+	}
+	for _, fn := range files {
+		rel, _ := filepath.Rel(repo, fn)
+		if !strings.HasPrefix(rel, "modules/caddyhttp/") {
+			continue
+		}
+		fset := token.NewFileSet()
+		f, err := parser.ParseFile(fset, fn, nil, 0)
+		if err != nil {
+			continue
+		}
+		for _, d := range f.Decls {
+			fd, ok := d.(*ast.FuncDecl)
+			if !ok || fd.Body == nil {
+				continue
+			}
+			where := rel + ":" + fd.Name.Name
+			inCall := map[*ast.Ident]bool{}
+			ast.Inspect(fd.Body, func(x ast.Node) bool {
+				c, ok := x.(*ast.CallExpr)
+				if !ok {
+					return true
+				}
+				fun := exprText(c.Fun)
+				if strings.HasSuffix(fun, "WithValue") && len(c.Args) == 3 {
+					k := exprText(c.Args[1])
+					k = k[strings.LastIndex(k, ".")+1:]
+					if keys[k] {
+						writes = append(writes, "("+leanStr(where)+", "+leanStr(k)+", "+leanStr(exprText(c.Args[2]))+")")
+					}
+				}
+				for _, a := range c.Args {
+					if id, ok := a.(*ast.Ident); ok && id.Name == "routeGroupCtxKey" {
+						inCall[id] = true
+						sel := fun[strings.LastIndex(fun, ".")+1:]
+						groupUses = append(groupUses, "("+leanStr(where)+", "+leanStr(sel)+")")
+					}
+				}
+				return true
+			})
+			ast.Inspect(fd.Body, func(x ast.Node) bool {
+				if id, ok := x.(*ast.Ident); ok && id.Name == "routeGroupCtxKey" && !inCall[id] {
+					groupUses = append(groupUses, "("+leanStr(where)+", "+leanStr("other")+")")
+				}
+				return true
+			})
+			if rel == "modules/caddyhttp/matchers.go" && fd.Name.Name == "Provision" && fd.Recv != nil && exprText(fd.Recv.List[0].Type) == "*MatchNot" {
+				for _, st := range fd.Body.List {
+					if rs, ok := st.(*ast.RangeStmt); ok {
+						for _, inner := range rs.Body.List {
+							notProv = append(notProv, leanStr(stmtText(inner)))
+						}
+					}
+				}
+			}
+			if rel == "modules/caddyhttp/routes.go" && (fd.Name.Name == "FromInterface" || fd.Name.Name == "ProvisionHandlers") && fd.Recv != nil {
+				recv := exprText(fd.Recv.List[0].Type)
+				for _, st := range fd.Body.List {
+					rs, ok := st.(*ast.RangeStmt)
+					if !ok {
+						continue
+					}
+					for _, inner := range rs.Body.List {
+						if recv == "*MatcherSets" && fd.Name.Name == "FromInterface" {
+							fromIface = append(fromIface, leanStr(stmtText(inner)))
+						} else if recv == "*Route" {
+							provHandlers = append(provHandlers, leanStr("range "+exprText(rs.X)+": "+stmtText(inner)))
+						}
+					}
+				}
+			}
+		}
+	}
+	var sb strings.Builder
+	sb.WriteString("\n/-- every write of a request-context value the routing reads (`context.WithValue(_, K, _)`, K among\n    routeGroupCtxKey / VarsCtxKey / ErrorCtxKey / OriginalRequestCtxKey) under modules/caddyhttp/**:\n    (file:function, key, value) -/\n")
+	sb.WriteString("def requestCtxWrites : List (String × String × String) := [\n  " + strings.Join(writes, ",\n  ") + "]\n")
+	sb.WriteString("\n/-- every mention of `routeGroupCtxKey` inside a function body: (file:function, the call it is an\n    argument of — `WithValue` creates the map, `Value` reads it — or \"other\") -/\n")
+	sb.WriteString("def routeGroupCtxUses : List (String × String) := [\n  " + strings.Join(groupUses, ",\n  ") + "]\n")
+	sb.WriteString("\n/-- the statements of the outer loop body of `MatcherSets.FromInterface` (one round per loaded matcher set) -/\n")
+	sb.WriteString("def fromInterfaceLoopBody : List String := [\n  " + strings.Join(fromIface, ",\n  ") + "]\n")
+	sb.WriteString("\n/-- the statements of the outer loop body of `MatchNot.Provision` (one round per loaded matcher set of a `not`) -/\n")
+	sb.WriteString("def matchNotProvisionLoopBody : List String := [\n  " + strings.Join(notProv, ",\n  ") + "]\n")
+	sb.WriteString("\n/-- the statements of the loops of `Route.ProvisionHandlers` -/\n")
+	sb.WriteString("def provisionHandlersLoops : List String := [\n  " + strings.Join(provHandlers, ",\n  ") + "]\n")
 	return sb.String()
 }
